@@ -152,7 +152,7 @@ def main():
         plan = []
         n_nodes = rng.randint(4, 9)
         for i in range(n_nodes):
-            kind = rng.choice(["add", "add", "mul", "sq", "cube", "scale", "fma", "fma"])
+            kind = rng.choice(["add", "add", "mul", "sq", "cube", "scale", "fma", "fma", "zero", "inactive", "masked", "pass"])
             a = rng.randrange(-1, i) if i else -1          # -1 = the input itself
             b = rng.randrange(-1, i) if i else -1
             plan.append((kind, a, b, rng.randrange(2)))
@@ -169,6 +169,14 @@ def main():
                     vals.append(get(a) * get(b))
                 elif kind == "fma":
                     vals.append(fma(get(a), get(b), get(a if c else b)))
+                elif kind == "zero":            # consumers whose cotangent contribution is zero in every entry
+                    vals.append(get(a) * 0.0 + get(b))
+                elif kind == "inactive":
+                    vals.append(anp.maximum(get(a), 2.0 ** 45) - 2.0 ** 45 + get(b))
+                elif kind == "masked":
+                    vals.append(anp.where(onp.array([c == 1, False, False]), get(a), get(b)))
+                elif kind == "pass":            # consumers that hand their cotangent on unchanged (the same array object)
+                    vals.append(anp.reshape(get(a), (3,)) + 0.0)
                 elif kind == "sq":
                     vals.append(get(a) ** 2)
                 elif kind == "cube":
@@ -188,11 +196,23 @@ def main():
             if not onp.all(onp.abs(y) < 2 ** 40):
                 continue
             g = ro([rng.randint(-2, 2) for _ in range(n_leaf)])
+            if cfg.get("writable"):
+                g = onp.array(g)              # an ordinary array: an illegal write goes through silently and must show in the results
+            g0 = onp.array(g)
             v = ro([rng.randint(-2, 2) for _ in range(n_leaf)])
             vjp, _ = make_vjp(f)(x)
             r1 = vjp(g)
             jt = make_jvp(f)(x)(v)[1]
             probs = []
+            if not onp.all(g == g0):
+                probs.append("the cotangent passed to the VJP function was modified: %r -> %r" % (g0.tolist(), g.tolist()))
+                g = onp.array(g0)
+            for bi in range(n_leaf):        # the whole gradient, not one direction of it: <g, J e_i> for every basis vector
+                e = onp.zeros(n_leaf)
+                e[bi] = 1.0
+                if float(onp.sum(g0 * make_jvp(f)(x)(e)[1])) != float(onp.asarray(r1)[bi]):
+                    probs.append("gradient entry %d is %r, forward mode gives %r" % (bi, float(onp.asarray(r1)[bi]),
+                                                                                      float(onp.sum(g0 * make_jvp(f)(x)(e)[1]))))
             if float(onp.sum(g * jt)) != float(onp.sum(onp.asarray(r1) * v)):
                 probs.append("<g, jvp v> = %r but <vjp g, v> = %r: the backward accumulation is wrong"
                              % (float(onp.sum(g * jt)), float(onp.sum(onp.asarray(r1) * v))))
